@@ -299,6 +299,7 @@ func main() {
 	mult := flag.Int("mult", 2, "guided mode: histories every target is faulted in (reduced when the budget does not allow it)")
 	only := flag.String("only", "", "replay one faulted run: <plan>[/r]")
 	flag.Parse()
+	cfsim.HoldBackground = true
 	if *srv {
 		sim.Init(sim.Params{CoinbaseMaturity: 4, MinFrozenPeriod: 2, GapLimit: 20})
 		serve(rng.Seed())
